@@ -51,7 +51,7 @@ CHECKS = {
          "+ TLC trace validation (NegoTrace) of random Accept-grammar headers",
          "The allowed representation set BestSet is defined in TLA+ for every reading the property leaves open; every real write (12 "
          "repetitions per request to expose map-order nondeterminism) is judged against it.", "6 C05",
-         "Trusted: TLC, Json module, net/http; SP is the only optional whitespace generated; Produces entries have registered writers."),
+         "Trusted: TLC, Json module, net/http; SP is the only optional whitespace generated; at least one Produces entry has a registered writer."),
  "C08": ("TLC exhaustive model checking of MC_Cors (every configuration x stored-methods state; every pool request answered by the "
          "implementation-shaped filter and judged by all C08 clauses; both readings of 'allowed origin' proved equal on the pool) + replay of "
          "every configuration with the whole pool on one real filter instance next to a filter-less twin container + TLC trace validation "
